@@ -621,6 +621,12 @@ def compress(ex, st, n, mask_at, hint="sel"):
     """Order-preserving selection by a boolean mask: returns (m, sel) with
     sel strictly increasing onto {k<n | mask k}.  Assumed library contract (boolean-mask selection)."""
     used(ex, "boolean-mask selection keeps exactly the True positions, in order")
+    ck = "cmp:%d" % id(mask_at)
+    hit = st.ghost.get(ck)
+    if hit is not None and hit[3] is mask_at and hit[4] is n:
+        # the same mask object selected again on this path: the same enumeration of its True positions
+        compress.last_rank = hit[2]
+        return hit[0], hit[1]
     m = fresh(I, hint + "_m")
     sel = z3.Function(fresh_name(hint), I, I)
     rank = z3.Function(fresh_name(hint + "_rank"), I, I)
@@ -632,6 +638,9 @@ def compress(ex, st, n, mask_at, hint="sel"):
     st.assume(z3.ForAll([j, j2], z3.Implies(z3.And(0 <= j, j < j2, j2 < m), sel(j) < sel(j2))))
     st.assume(z3.ForAll([k], z3.Implies(z3.And(0 <= k, k < to_z3(n), _b(mask_at(k))),
                                         z3.And(0 <= rank(k), rank(k) < m, sel(rank(k)) == k))))
+    compress.last_rank = rank
+    st.ghost = dict(st.ghost)
+    st.ghost[ck] = (m, sel, rank, mask_at, n)
     return m, sel
 
 
@@ -897,7 +906,48 @@ def _quant(ex, st, e, kind):
     if lo is not None:
         rng = z3.And([z3.And(to_z3(lo) <= k, k < to_z3(hi)) for k in ks])
         body = z3.Implies(rng, body) if kind == "forall" else z3.And(rng, body)
+    if kind == "forall" and lo is None:
+        pats = _uf_patterns(body, ks)
+        if pats:
+            # unbounded integer quantifier: trigger on the uninterpreted applications that mention the variable
+            return [(st, z3.ForAll(ks, body, patterns=pats))]
     return [(st, z3.ForAll(ks, body) if kind == "forall" else z3.Exists(ks, body))]
+
+
+def _uf_patterns(body, ks, limit=2):
+    """Smallest applications of uninterpreted functions in `body` that contain every bound variable."""
+    want = set(k.get_id() for k in ks)
+    found = []
+    seen = {}
+
+    def vars_of(t):
+        i = t.get_id()
+        if i in seen:
+            return seen[i]
+        if z3.is_quantifier(t):
+            r = (frozenset(), 10 ** 6)
+        elif z3.is_const(t):
+            r = (frozenset([i]) if i in want else frozenset(), 1)
+        else:
+            vs, sz = frozenset(), 1
+            for ch in t.children():
+                v2, s2 = vars_of(ch)
+                vs, sz = vs | v2, sz + s2
+            r = (vs, sz)
+            if z3.is_app(t) and t.decl().kind() == z3.Z3_OP_UNINTERPRETED and t.num_args() > 0 and vs == want and sz < 40:
+                found.append((sz, t))
+        seen[i] = r
+        return r
+    vars_of(body)
+    found.sort(key=lambda p: p[0])
+    out, ids = [], set()
+    for sz, t in found:
+        if t.get_id() not in ids:
+            ids.add(t.get_id())
+            out.append(t)
+        if len(out) >= limit:
+            break
+    return out
 
 
 @special("forall")
